@@ -24,6 +24,19 @@ def run(ctx):
             jobs.append(dict(ctx=ctx, binary=binary, name="d3_%d" % i, stacks=st[i::parts], maxcalls=4, execs=2, outs=seq.OUTS3, workers=8, entries=2))
     mism = seq.run_jobs(ctx, jobs, par=2)
     seq.report(ctx, mism, lambda m: m["tag"] in TAGS)
+    # nesting with the two policies that need time and threads (Timeout firing, Hedge): the state of the stateful policies
+    # inside must be what the nesting implies (permit returned, outcome recorded) - timed scenarios, validated by TLC
+    import p_c07, tscen
+    from tscen import scenario, fn, start, to, hg, bh, cb, retry, fb, cE
+    scs = []
+    for inner in ([bh("b", 1, wait=0)], [cb("c")], [retry(1, dly=1), bh("b", 1)], [fb(), cb("c")], [bh("b", 1), cb("c")]):
+        for d in (1, 4):
+            for coop in (True, False):
+                fns = [[fn(d, "R0", "E1", coop), fn(1, "R1")], [fn(1, "R1"), fn(1, "R1")]]
+                scs.append(scenario([to(2)] + inner, fns, [start(1), start(2, 6)]))
+                scs.append(scenario([hg(1, 2)] + inner, fns, [start(1), start(2, 9)]))
+                scs.append(scenario([retry(1, dly=1), to(2)] + inner, fns, [start(1), start(2, 9)]))
+    p_c07.run_family(ctx, "c01t", scs)
     return vlib.finish(ctx, rule="every stack of depth <= D over %d policy descriptors (with repetition, shared stateful instances), every lazily chosen outcome script "
                        "(<= MaxCalls invocations per execution) and 2 successive executions; TLC tree enumeration; non-trivial = more than one invocation or any policy event" % len(BASE),
                        exhaustive=True)
